@@ -7,8 +7,10 @@ import (
 	"encoding/json"
 	"fmt"
 	"reflect"
+	"time"
 
 	"github.com/vipnode/vipnode/v2/ethnode"
+	"github.com/vipnode/vipnode/v2/internal/verif/vsched"
 	"github.com/vipnode/vipnode/v2/pool"
 )
 
@@ -98,8 +100,46 @@ func (c Call) Resign(signer *Ident) Call {
 	return c
 }
 
-// Invoke calls the real endpoint. ctx must carry a service for host registrations.
+// InvokeWatchdog is how long a request may take outside the controlled scheduler before it counts as
+// never returning. In-memory requests take microseconds; the bound only has to beat a loaded
+// machine. (Under the controlled scheduler blocking is modelled and a wedge shows as a deadlock.)
+const InvokeWatchdog = 3 * time.Minute
+
+// Invoke calls the real endpoint. ctx must carry a service for host registrations. Outside the
+// controlled scheduler a request that does not return within InvokeWatchdog panics (reported by the
+// callers like any panic of the code under test) instead of hanging the whole check.
 func (c Call) Invoke(w *PoolWorld, ctx context.Context) (res interface{}, err error) {
+	if vsched.Active() {
+		return c.invoke(w, ctx)
+	}
+	type out struct {
+		res interface{}
+		err error
+		pan interface{}
+	}
+	ch := make(chan out, 1)
+	go func() {
+		var o out
+		defer func() {
+			if r := recover(); r != nil {
+				o.pan = r
+			}
+			ch <- o
+		}()
+		o.res, o.err = c.invoke(w, ctx)
+	}()
+	select {
+	case o := <-ch:
+		if o.pan != nil {
+			panic(o.pan)
+		}
+		return o.res, o.err
+	case <-time.After(InvokeWatchdog):
+		panic(fmt.Sprintf("request %s by %s never returned (still blocked after %s)", c.Endpoint, Short(c.ID), InvokeWatchdog))
+	}
+}
+
+func (c Call) invoke(w *PoolWorld, ctx context.Context) (res interface{}, err error) {
 	switch c.Endpoint {
 	case "vipnode_connect":
 		return w.Pool.Connect(ctx, c.Sig, c.ID, c.Nonce, c.Param.(pool.ConnectRequest))
